@@ -125,6 +125,20 @@ CLAIMED = {
         design='DESIGN.md §5 C17',
         note=NOTE_COMMON + 'DisplayFormatter.quantize is modelled as Decimal.quantize half-even to the currency\'s digits.',
         technique='Lean 4 proof over the numberify model + differential correspondence + conservation oracles'),
+    'C18': dict(
+        text=('Lean theorems in two strengths. Structural, for all dates: date_trunc month/quarter/year/decade/century/millennium '
+              'is the first day of the unit, not after d, idempotent (and month/year monotone); parts agree. Over the property\'s '
+              'own range 1900-2100, derived from three facts enumerated by the kernel (`decide +kernel` over a logarithmic-depth '
+              'range checker, 16 chunk modules): ordinal round trip, (y,m,d) round trip, ISO-calendar consistency; from them '
+              'date_add/date_diff/date +- n mutually inverse, date_trunc(week) is the Monday of the week (idempotent), date_bin '
+              'with day strides is the stride-aligned bin start; interval normalisation; account decomposition laws, possign, '
+              'sort keys; substr = Python slice laws; abs/neg/safediv/round (exponent, exactness, half-even error bound); casts '
+              'are total (value or NULL). Tied to the code by EXHAUSTIVE correspondence over the property\'s domains: every date '
+              '1900-2100 x every unit/part, strides x origins, 605 account names, 341 strings x all index pairs in [-6,6], all '
+              'decimals of <= 3 digits, cast lexicon.'),
+        design='DESIGN.md §5 C18',
+        note=NOTE_COMMON + 'regex beyond literal patterns, textwrap.shorten (maxwidth) and dateutil (parse_date) are not modelled.',
+        technique='Lean 4 proof (structural + kernel enumeration of the 1900-2100 range) + exhaustive domain correspondence'),
 }
 
 PENDING_REASON = 'check under construction in this round (model or correspondence not yet registered); not claimed yet'
